@@ -115,6 +115,15 @@ pub const CARRIERS: &[(&str, &str, &str)] = &[
     ("seq.map-random_choices", "int", "range(5).map((v_x: int)->{ v_cb(1) }).random_choices(3).map((v_x: int)->{ v_x }).to_array().len()"),
     ("gen.product-restart", "int", "product(range(3).to_generator(), [1].to_generator().map(v_cb)).to_array().len()"),
     ("map.update_from_keys-occupied", "int", "mapping<int>().set(1, 1).update_from_keys([1, 1, 2], (v_k: int)->{v_w(1)}, (v_k: int, v_v: int)->{v_w(1) + v_v}).len()"),
+    // natives that walk a lazy sequence twice or in lock-step with another one
+    ("seq.map-set", "int", "range(5).map(v_cb).set(2, 9).len()"),
+    ("seq.map-pop", "int", "range(5).map(v_cb).pop(2).len()"),
+    ("seq.map-insert", "int", "range(5).map(v_cb).insert(2, 9).len()"),
+    ("seq.map-cmp-longer-left", "int", "cmp(range(4).map(v_cb), range(3).map(v_cb).to_array())"),
+    ("seq.map-cmp-longer-right", "int", "cmp(range(3).map(v_cb).to_array(), range(4).map(v_cb))"),
+    ("seq.map-eq-unequal-lengths", "bool", "range(4).map(v_cb) == range(3).map(v_cb).to_array()"),
+    ("seq.map-zip-unequal", "int", "zip(range(4).map(v_cb), range(2).map(v_cb)).to_array().len()"),
+    ("gen.map-zip-unequal", "int", "zip(range(4).to_generator().map(v_cb), range(2).to_generator().map(v_cb)).to_array().len()"),
     ("gen.chunks-map", "int", "range(5).to_generator().map(v_cb).chunks(2).len()"),
     ("gen.enumerate-map", "int", "range(4).to_generator().map(v_cb).enumerate().to_array().len()"),
     ("gen.take-skip-map", "int", "count().to_generator().map(v_cb).skip(1).take(3).to_array().len()"),
